@@ -101,6 +101,9 @@ def double_run(res, ctx, root, fname, body, args_extra, t, mode, label, rng, n_r
     lic = str(f) + ".license"
     if os.path.exists(lic):
         os.unlink(lic)
+    if "--year" not in args_extra and "--exclude-year" not in args_extra:
+        os.utime(f, (1560000000, 1560000000))   # last modified in June 2019
+        res.cell("file-last-modified-years-ago")
     cwd, gargs, fargs = annot.place(rng, root, [f])
     args = gargs + ["annotate"] + args_extra + ([mode] if mode else []) + fargs
     states = []
@@ -192,6 +195,9 @@ def run_case(case, ctx):
                                 extra += ["--force-dot-license"]
                             elif r < 0.6:
                                 extra += ["--merge-copyrights"]
+                            elif r < 0.68:
+                                # no year option: the current year - whenever the file was last touched (double_run makes it an old file)
+                                extra = ["-c", "Jane Doe", "-l", "MIT"] + rng.choice([[], ["--force-dot-license"], ["--copyright-prefix", "string-c"]])
                             elif r < 0.7:
                                 extra = ["-c", "Jane Doe", "-l", "MIT", "--year", "2016", "--year", rng.choice(["2020", "2011", "2016"]),
                                          "--merge-copyrights"] + rng.choice([[], ["--copyright-prefix", "string-c"], ["-c", "Second Holder"]])
